@@ -18,11 +18,11 @@ PROPS = {
     "C12": {
         "modules": ["Ezpz.Proofs.Assembly", "Ezpz.Proofs.AssemblyPerm", "Ezpz.Proofs.Rename", "Ezpz.Proofs.EquivHelpers", "Ezpz.Real.Equivariance", "Ezpz.Real.EquivarianceRenumber", "Ezpz.Proofs.Relabel", "Ezpz.Real.EquivarianceEntry", "Ezpz.Real.GaussNewton", "Ezpz.Real.StopTests", "Ezpz.Properties.C10"],
         "suites": [
-            {"suite": "kernels", "quick": (150,), "thorough": (3000,)},
-            {"suite": "trace", "quick": (400, "planted,linear,prio,contra,collapsed,pinned"), "thorough": (6000, "planted,linear,prio,contra,caps,conflict,collapsed,pinned")},
+            {"suite": "kernels", "quick": (750,), "thorough": (10000,)},
+            {"suite": "trace", "quick": (2000, "planted,linear,prio,contra,collapsed,pinned"), "thorough": (18000, "planted,linear,prio,contra,caps,conflict,collapsed,pinned")},
         ],
         "oracles": [
-            {"bin": "oracle_c12", "quick": ("{seed}", "800"), "thorough": ("{seed}", "20000")},
+            {"bin": "oracle_c12", "quick": ("{seed}", "4000"), "thorough": ("{seed}", "20000")},
         ],
         "partial": ["solve_equivariant is proved per priority level over the reals (solveInner_perm, solveInner_renumber, with newtonStep/newtonLoop versions): reordering the requests gives the same values, iterations, solved priority and under-constrained set, the same unsatisfied requests and warnings up to order (equal after sorting: unsatisfied_sorted_eq); renumbering the variables gives the reordered values and otherwise the identical outcome; the solver hypotheses (RowPermSolve, ColPermSolve) are shown to hold for exact total solvers (rowPermSolve_of_exact, colPermSolve_of_exact via step_row_perm / step_col_perm / step_unique). Not invariant, and stated so (solveInner_perm_invalid): which request a MissingGuess error names when several requests have missing guesses (first in list order). At the public entry point (solveWithPriority_perm, solveWithPriority_renumber; solve without analysis): request ids are pure labels (solveInner_relabel_cases), enumerate of a permuted list is a permutation of the relabelled entries, the levels are equal, so both runs take the same decisions level by level: same values, iterations and solved priority, unsatisfied requests and warnings mapped through the position bijection (up to order), or the same failure",
                     "'up to numerical noise': summation order inside faer changes with row / column order; left to the oracle on the real code (known finding F16: on inconsistent rank-deficient systems one order converges and another does not)"],
@@ -32,11 +32,11 @@ PROPS = {
     "C15": {
         "modules": ["Ezpz.Proofs.Lint", "Ezpz.Real.Lint", "Ezpz.Proofs.Warnings"],
         "suites": [
-            {"suite": "kernels", "quick": (150,), "thorough": (3000,)},
-            {"suite": "trace", "quick": (400, "planted,prio,contra,malformed,conflict,collapsed,pinned"), "thorough": (6000, "planted,prio,contra,malformed,conflict,linear,caps,collapsed,pinned")},
+            {"suite": "kernels", "quick": (750,), "thorough": (10000,)},
+            {"suite": "trace", "quick": (2000, "planted,prio,contra,malformed,conflict,collapsed,pinned"), "thorough": (18000, "planted,prio,contra,malformed,conflict,linear,caps,collapsed,pinned")},
         ],
         "oracles": [
-            {"bin": "oracle_c15", "quick": ("{seed}", "2000"), "thorough": ("{seed}", "60000")},
+            {"bin": "oracle_c15", "quick": ("{seed}", "10000"), "thorough": ("{seed}", "60000")},
         ],
         "partial": ["'always gets a warning' is proved for the request subset whose outcome / failure is returned (lint_survives, lint_survives_error, lint_single_level); for a special-angle request at a level that was never attempted or was abandoned the code emits nothing - the statement is false of the code there (known finding F12; machine-checked negation witness lint_lost_below_solved_priority, general form no_warning_above_solved_priority)",
                     "'none for solves that start near a non-degenerate solution' is a claim about the iterates of the f64 loop: searched by the oracle, not proved; what is proved is that every notice names a request whose evaluation raised the flag at a visited configuration (newtonLoop_warnings, C07.warning_indices), what the flag means geometrically per kind (degenerate_sound_*), and that a collapse at the guess is always reported (degenerate_complete_at_guess)",
@@ -47,10 +47,10 @@ PROPS = {
     "C16": {
         "modules": ["Ezpz.Properties.C16"],
         "suites": [
-            {"suite": "text", "quick": (300, 150), "thorough": (5000, 2000)},
+            {"suite": "text", "quick": (1200, 600), "thorough": (10000, 4000)},
         ],
         "oracles": [
-            {"bin": "oracle_c16.py", "python": True, "quick": ("{seed}", "150"), "thorough": ("{seed}", "3000"), "timeout": 7200},
+            {"bin": "oracle_c16.py", "python": True, "quick": ("{seed}", "300"), "thorough": ("{seed}", "3000"), "timeout": 7200},
         ],
         "partial": ["the theorems are about the hand-written model of main.rs (Ezpz/Model/Cli.lean, CliMain.lean); the tie to the real program is the comparison of exit status and standard output of the release binary built from /repo with the model's rendering, by path and by stdin, on every generated text",
                     "cli_never_panics assumes the LU oracle does not panic (LinSolveTotal, as in C06); panics inside faer, clap argument handling, --image-path (visualize::save_png) and the two wall-clock performance lines are outside the model",
@@ -61,10 +61,10 @@ PROPS = {
     "C17": {
         "modules": ["Ezpz.Proofs.Assembly", "Ezpz.Proofs.Union", "Ezpz.Real.Union", "Ezpz.Real.UnionEntry", "Ezpz.Real.GaussNewton2", "Ezpz.Real.StopTests", "Ezpz.Properties.C06"],
         "suites": [
-            {"suite": "trace", "quick": (400, "planted,linear,prio,contra,pinned,collapsed"), "thorough": (6000, "planted,linear,prio,contra,caps,conflict,pinned,collapsed")},
+            {"suite": "trace", "quick": (2000, "planted,linear,prio,contra,pinned,collapsed"), "thorough": (18000, "planted,linear,prio,contra,caps,conflict,pinned,collapsed")},
         ],
         "oracles": [
-            {"bin": "oracle_c17", "quick": ("{seed}", "300", "12"), "thorough": ("{seed}", "3000", "200")},
+            {"bin": "oracle_c17", "quick": ("{seed}", "1500", "12"), "thorough": ("{seed}", "3000", "200")},
         ],
         "partial": ["iterates_restrict is proved (Union.lean: newtonStep_union, newtonRun_union, newtonLoop_union_prefix, newtonLoop_union_converged, residual_test_union_iff, union_values_split; blockSolve_of_exact shows exact solvers satisfy the block hypothesis): while both groups keep iterating the union's values are the concatenation of the groups' values, the union returns at the residual test iff both groups do, and in every case the new values of a group are computed from that group's data only - only the decision when to stop is global (step_test_is_global: the relative step threshold uses the largest coordinate of the whole union). Also proved: requests of groups sharing no variables give a block-diagonal Jacobian and a concatenated residual at every configuration (disjoint_block_structure, disjoint_no_coupling), a group's rows depend only on its own variables (group1_independent, group2_independent), the damped step of the union is exactly the pair of the groups' steps (step_of_blocks), the union's residual test passes iff every group's does and its step norm is the largest group norm (residual_test_of_union, step_norm_of_union), an Ok result has only finite values (C06.ok_implies_finite, which closes the NaN cross-talk path); equality of returned values is therefore exact for equal iteration counts; when one group converges earlier the union keeps stepping it (global stopping rules) and the difference is a convergence quantity, left to the oracle (<= 1e-5*scale)",
                     "known finding F16: a group that is inconsistent and rank-deficient may converge alone and not in the union (or vice versa) because of rounding noise in the null space"],
@@ -74,10 +74,10 @@ PROPS = {
     "C05": {
         "modules": ["Ezpz.Properties.C05", "Ezpz.Real.Kernel", "Ezpz.Real.Dof"],
         "suites": [
-            {"suite": "trace", "quick": (500, "planted,linear,prio,contra,collapsed,pinned"), "thorough": (8000, "planted,linear,prio,contra,caps,conflict,disparity,collapsed,pinned")},
+            {"suite": "trace", "quick": (2500, "planted,linear,prio,contra,collapsed,pinned"), "thorough": (24000, "planted,linear,prio,contra,caps,conflict,disparity,collapsed,pinned")},
         ],
         "oracles": [
-            {"bin": "oracle_c05.py", "python": True, "quick": ("{seed}", "800"), "thorough": ("{seed}", "20000")},
+            {"bin": "oracle_c05.py", "python": True, "quick": ("{seed}", "4000"), "thorough": ("{seed}", "20000")},
         ],
         "partial": ["dof_spec is about exact real arithmetic under the SvdSpec contract and the two gap hypotheses (the property's own 'well-separated cases only'); that faer's f64 SVD meets the contract is checked as a certificate (V orthogonal, VtJtJV = diag sigma^2, sigma sorted) on every recorded trace, and the float thresholds on borderline spectra are outside the statement",
                     "the analysed Jacobian is the one of the returned configuration only when the solve ended at the residual test (analysis_of_returned_model); after a step-size stop it is the Jacobian one step earlier - the difference is below the step tolerance"],
@@ -88,11 +88,11 @@ PROPS = {
     "C02": {
         "modules": ["Ezpz.Properties.C02", "Ezpz.Real.GaussNewton", "Ezpz.Real.GaussNewton3", "Ezpz.Real.LocalContraction"],
         "suites": [
-            {"suite": "kernels", "quick": (150,), "thorough": (3000,)},
-            {"suite": "trace", "quick": (400, "planted,linear,prio,collapsed,pinned"), "thorough": (6000, "planted,linear,prio,caps,disparity,collapsed,pinned")},
+            {"suite": "kernels", "quick": (750,), "thorough": (10000,)},
+            {"suite": "trace", "quick": (2000, "planted,linear,prio,collapsed,pinned"), "thorough": (18000, "planted,linear,prio,caps,disparity,collapsed,pinned")},
         ],
         "oracles": [
-            {"bin": "oracle_c02", "quick": ("{seed}", "3000"), "thorough": ("{seed}", "200000")},
+            {"bin": "oracle_c02", "quick": ("{seed}", "15000"), "thorough": ("{seed}", "200000")},
         ],
         "partial": ["convergence of the f64 iteration (success, iteration count <= 8, landing within 1.5x) is NOT proved: the theorems give the loop's anatomy (every round is residual test -> damped step of the Jacobian at the current point -> step test), existence/uniqueness/descent of the exact step, monotone approach on consistent linear systems, and the abstract contraction argument with the constant 1.5; that a given planted system satisfies the contraction hypothesis is left to the oracle on the real code",
                     "gauss_newton_local_C02 (LocalContraction.lean) proves the whole chain for the exact iteration: error map differentiable at x* with Jacobian J, sigma_min(J)^2 >= c > lambda > 0, iteration operator continuous at x* => a ball around x* on which the error halves every round and no iterate is farther from the guess than 1.5x; continuity of x -> (J(x)^T J(x) + lambda)^-1 J(x)^T is a hypothesis there (not derived from continuity of J); rank-deficient ('not pinned down') systems are outside it: the defect operator is the identity on ker J (damped_defect_on_kernel), which is the regime of known finding F15",
@@ -103,11 +103,11 @@ PROPS = {
     "C04": {
         "modules": ["Ezpz.Properties.C04", "Ezpz.Real.GaussNewton", "Ezpz.Real.GaussNewton2", "Ezpz.Real.GaussNewton3", "Ezpz.Real.Linear", "Ezpz.Real.LinearConvergence"],
         "suites": [
-            {"suite": "kernels", "quick": (150,), "thorough": (3000,)},
-            {"suite": "trace", "quick": (400, "linear,planted,contra,conflict,collapsed,pinned"), "thorough": (6000, "linear,planted,contra,conflict,prio,caps,collapsed,pinned")},
+            {"suite": "kernels", "quick": (750,), "thorough": (10000,)},
+            {"suite": "trace", "quick": (2000, "linear,planted,contra,conflict,collapsed,pinned"), "thorough": (18000, "linear,planted,contra,conflict,prio,caps,collapsed,pinned")},
         ],
         "oracles": [
-            {"bin": "oracle_c04.py", "python": True, "quick": ("{seed}", "400"), "thorough": ("{seed}", "8000")},
+            {"bin": "oracle_c04.py", "python": True, "quick": ("{seed}", "2000"), "thorough": ("{seed}", "8000")},
         ],
         "partial": ["the 1e-4*scale closeness of the f64 result to the exact minimum-norm least-squares point (effect of lambda = 1e-9, of stopping early, of rounding) is not proved: the theorems give the exact algebra (one step is the Tikhonov minimiser; displacement stays in range(A^T); a stationary point with displacement in range(A^T) is the unique nearest least-squares point; the last step d certifies stationarity up to lambda*|d|); in exact arithmetic a consistent system converges geometrically with factor lambda/(c+lambda) per round to the solution nearest the guess, c a lower bound of |Az|^2/|z|^2 on range(A^T) (linear_consistent_converges); that the f64 iteration gets there within 35 rounds and stops is left to the exact-rational oracle on the real code",
                     "untouched_var_fixed is stated for a solver answer whose component for the variable is a neutral element of +; that the exact step has this component 0 for a zero Jacobian column is untouched_var_step_zero (reals); that faer's LU returns exactly 0.0 there is checked on every recorded trace"],
@@ -117,10 +117,10 @@ PROPS = {
     "C03": {
         "modules": ["Ezpz.Properties.C03"],
         "suites": [
-            {"suite": "trace", "quick": (400, "prio,contra,planted,linear,caps,malformed,conflict,disparity,resolve"), "thorough": (6000, "prio,contra,planted,linear,caps,malformed,conflict,disparity,resolve")},
+            {"suite": "trace", "quick": (2000, "prio,contra,planted,linear,caps,malformed,conflict,disparity,resolve"), "thorough": (18000, "prio,contra,planted,linear,caps,malformed,conflict,disparity,resolve")},
         ],
         "oracles": [
-            {"bin": "oracle_c03", "quick": ("{seed}", "1500", "0"), "thorough": ("{seed}", "20000", "1")},
+            {"bin": "oracle_c03", "quick": ("{seed}", "7500", "0"), "thorough": ("{seed}", "20000", "1")},
         ],
         "partial": [],
         "assumptions": ["the per-level solve is a parameter of the priority theorems: they hold for whatever solve_inner computes"],
@@ -128,10 +128,10 @@ PROPS = {
     "C14": {
         "modules": ["Ezpz.Properties.C14", "Ezpz.Real.Tolerance"],
         "suites": [
-            {"suite": "trace", "quick": (400, "caps,prio,planted,contra,collapsed,pinned"), "thorough": (6000, "caps,prio,planted,contra,linear,malformed,collapsed,pinned")},
+            {"suite": "trace", "quick": (2000, "caps,prio,planted,contra,collapsed,pinned"), "thorough": (18000, "caps,prio,planted,contra,linear,malformed,collapsed,pinned")},
         ],
         "oracles": [
-            {"bin": "oracle_c14", "quick": ("{seed}", "300"), "thorough": ("{seed}", "6000")},
+            {"bin": "oracle_c14", "quick": ("{seed}", "1500"), "thorough": ("{seed}", "6000")},
         ],
         "partial": ["solve_cap_monotone_partial: for several priority levels cap-monotonicity is proved under the hypothesis that no level fails with DidNotConverge under the smaller cap; without it the statement is false of the code (known finding F11)",
                     "the tolerance clause is proved over the reals for results returned at the residual test (converged_within_tolerance: every error component <= the configured tolerance); that the f64 iteration reaches the residual test for a given tighter tolerance is a convergence claim, checked by the oracle on the real code only"],
@@ -140,11 +140,11 @@ PROPS = {
     "C01": {
         "modules": ["Ezpz.Properties.C01", "Ezpz.Real.Meaning", "Ezpz.Real.MeaningArcs"],
         "suites": [
-            {"suite": "kernels", "quick": (150,), "thorough": (3000,)},
-            {"suite": "trace", "quick": (300, "planted,contra,prio,linear,conflict,disparity,collapsed,pinned,resolve"), "thorough": (5000, "planted,contra,prio,linear,caps,malformed,conflict,disparity,collapsed,pinned,resolve")},
+            {"suite": "kernels", "quick": (750,), "thorough": (10000,)},
+            {"suite": "trace", "quick": (1500, "planted,contra,prio,linear,conflict,disparity,collapsed,pinned,resolve"), "thorough": (15000, "planted,contra,prio,linear,caps,malformed,conflict,disparity,collapsed,pinned,resolve")},
         ],
         "oracles": [
-            {"bin": "oracle_c01", "quick": ("{seed}", "600"), "thorough": ("{seed}", "20000")},
+            {"bin": "oracle_c01", "quick": ("{seed}", "3000"), "thorough": ("{seed}", "20000")},
         ],
         "partial": ["point_arc_verdict: for PointArcCoincident only 'on the circle' is guaranteed by a satisfied verdict; the arc's sweep is not checked within 0.05 of the circle (known finding F14)",
                     "the geometric meaning of each error measure is proved over the reals (measures_<kind>, satisfied_<kind>, zero_iff_<kind> for all 23 kinds, in coordinates, against a vocabulary written independently of the kernels); for the f64 code it is checked by the independent geometric oracle; where a kind's residual guard is active the measure is 0 and the verdict is 'satisfied' whatever the geometry (guarded_* / satisfied_of_guard_* theorems): those configurations are exempt in the oracle as degenerate"],
@@ -153,11 +153,11 @@ PROPS = {
     "C06": {
         "modules": ["Ezpz.Properties.C06"],
         "suites": [
-            {"suite": "kernels", "quick": (150,), "thorough": (3000,)},
-            {"suite": "trace", "quick": (400, "malformed,planted,contra,caps,collapsed"), "thorough": (8000, "malformed,planted,contra,caps,prio,linear,collapsed")},
+            {"suite": "kernels", "quick": (750,), "thorough": (10000,)},
+            {"suite": "trace", "quick": (2000, "malformed,planted,contra,caps,collapsed"), "thorough": (24000, "malformed,planted,contra,caps,prio,linear,collapsed")},
         ],
         "oracles": [
-            {"bin": "oracle_c06", "quick": ("{seed}", "3000"), "thorough": ("{seed}", "100000")},
+            {"bin": "oracle_c06", "quick": ("{seed}", "15000"), "thorough": ("{seed}", "100000")},
         ],
         "partial": ["panics inside faer, float overflow producing non-finite intermediates (caught by the guard, not prevented) and memory exhaustion are runtime behaviour the model cannot exhibit; they are covered by the oracle on the real code only"],
         "assumptions": ["LinSolveTotal / SvdTotal: faer returns a step with one entry per variable and a V of at least n x n entries, and reports failures as errors"],
@@ -165,10 +165,10 @@ PROPS = {
     "C07": {
         "modules": ["Ezpz.Properties.C07"],
         "suites": [
-            {"suite": "trace", "quick": (400, "prio,contra,planted,malformed,conflict,collapsed,pinned,resolve"), "thorough": (6000, "prio,contra,planted,malformed,linear,caps,conflict,collapsed,pinned,resolve")},
+            {"suite": "trace", "quick": (2000, "prio,contra,planted,malformed,conflict,collapsed,pinned,resolve"), "thorough": (18000, "prio,contra,planted,malformed,linear,caps,conflict,collapsed,pinned,resolve")},
         ],
         "oracles": [
-            {"bin": "oracle_c07", "quick": ("{seed}", "1000"), "thorough": ("{seed}", "30000")},
+            {"bin": "oracle_c07", "quick": ("{seed}", "5000"), "thorough": ("{seed}", "30000")},
         ],
         "partial": ["values_by_id_partial: proved under 'guess ids are 0..n in order'; false of the code otherwise (known finding F5, negation witness values_by_id_fails_when_permuted)"],
         "assumptions": [],
@@ -176,10 +176,10 @@ PROPS = {
     "C10": {
         "modules": ["Ezpz.Properties.C10"],
         "suites": [
-            {"suite": "trace", "quick": (300, "planted,prio,contra,linear,collapsed,pinned,resolve"), "thorough": (5000, "planted,prio,contra,linear,caps,malformed,collapsed,pinned,resolve")},
+            {"suite": "trace", "quick": (1500, "planted,prio,contra,linear,collapsed,pinned,resolve"), "thorough": (15000, "planted,prio,contra,linear,caps,malformed,collapsed,pinned,resolve")},
         ],
         "oracles": [
-            {"bin": "oracle_c10", "quick": ("{seed}", "800"), "thorough": ("{seed}", "20000"), "digest_twice": True, "second_args": ["rev"]},
+            {"bin": "oracle_c10", "quick": ("{seed}", "4000"), "thorough": ("{seed}", "20000"), "digest_twice": True, "second_args": ["rev"]},
         ],
         "partial": ["analysis_only_adds_failure_partial: proved under 'the analysis succeeds at every attempted level'; without it the statement is false of the code (known finding F10)",
                     "bit-reproducibility of faer and libm across processes is sampled (digest of all results compared between two fresh processes), not proved"],
@@ -189,10 +189,10 @@ PROPS = {
     "C11": {
         "modules": ["Ezpz.Properties.C11"],
         "suites": [
-            {"suite": "trace", "quick": (300, "planted,linear,prio,resolve"), "thorough": (5000, "planted,linear,prio,caps,contra,resolve")},
+            {"suite": "trace", "quick": (1500, "planted,linear,prio,resolve"), "thorough": (15000, "planted,linear,prio,caps,contra,resolve")},
         ],
         "oracles": [
-            {"bin": "oracle_c11", "quick": ("{seed}", "600"), "thorough": ("{seed}", "20000")},
+            {"bin": "oracle_c11", "quick": ("{seed}", "3000"), "thorough": ("{seed}", "20000")},
         ],
         "partial": ["results that stopped on the step-size test or fell back to a higher level are not 'converged' in the property's sense; the theorems' hypotheses say so (ghost flag byResidual / ConvergedAt)"],
         "assumptions": [],
@@ -200,7 +200,7 @@ PROPS = {
     "C08": {
         "modules": ["Ezpz.Properties.C08", "Ezpz.Proofs.Label", "Ezpz.Proofs.Render"],
         "suites": [
-            {"suite": "text", "quick": (400, 200), "thorough": (20000, 5000)},
+            {"suite": "text", "quick": (1600, 800), "thorough": (40000, 10000)},
         ],
         "oracles": [],
         "partial": ["the grammar (winnow combinators, f64::from_str) is modelled by hand and tied to parser.rs by the exact differential comparison; about the model it is proved that parsing the canonical rendering of any well-formed problem (all 23 instruction forms, declarations, both guess kinds; integer or plain decimal literals) returns that problem (parse_render, parse_render_dec, parse_render_instr); literals with exponents, nan/inf and sqrt(...), the pair form 'l = (x, y)' and non-canonical spacing are outside the round-trip theorem (covered by corr-text only); nothing is proved about the bits of the decimal-to-binary64 conversion (checked against Python's float() in the model's own tests and against Rust in corr-text)",
@@ -211,7 +211,7 @@ PROPS = {
     "C09": {
         "modules": ["Ezpz.Properties.C09"],
         "suites": [
-            {"suite": "text", "quick": (200, 600), "thorough": (5000, 30000)},
+            {"suite": "text", "quick": (800, 2400), "thorough": (10000, 60000)},
         ],
         "oracles": [
             {"bin": "oracle_c09_deep", "quick": ("100000", "1000000"), "thorough": ("1000000", "8000000"), "expect_stdout": "DEEP-OK"},
@@ -223,10 +223,10 @@ PROPS = {
     "C13": {
         "modules": ["Ezpz.Properties.C13", "Ezpz.Real.Deriv", "Ezpz.Real.DerivA", "Ezpz.Real.DerivB", "Ezpz.Real.DerivC", "Ezpz.Real.DerivD", "Ezpz.Real.DerivE"],
         "suites": [
-            {"suite": "kernels", "quick": (200,), "thorough": (5000,)},
+            {"suite": "kernels", "quick": (1000,), "thorough": (15000,)},
         ],
         "oracles": [
-            {"bin": "oracle_c13", "quick": ("{seed}", "150"), "thorough": ("{seed}", "5000")},
+            {"bin": "oracle_c13", "quick": ("{seed}", "750"), "thorough": ("{seed}", "5000")},
         ],
         "partial": [
                     "inside the coarse guard bands (e.g. Symmetric |pq| < 0.1, LineTangentToCircle |v| < 0.01) the linearisation is switched off while the residual is live: excluded by the property's own 'away from the documented degeneracies'"],
